@@ -37,9 +37,9 @@ func (s sv) Size() int {
 // store is the instrumented backing store.
 type store struct {
 	w      *mc.World
-	m      map[mux.Int]sv
-	inside map[mux.Int]int // callbacks currently inside, per key
-	calls  []string        // store callbacks in the order they ran: "add(k)=v" …
+	m      map[mux.Int]interface{} // a stored value may be the untyped nil (a "known absent" marker the group caches like any value)
+	inside map[mux.Int]int         // callbacks currently inside, per key
+	calls  []string                // store callbacks in the order they ran: "add(k)=v" …
 	loads  map[mux.Int]int
 	faults bool
 	nfault int
@@ -84,7 +84,7 @@ func (s *store) load(ctx context.Context, d interface{}) (interface{}, error) {
 
 type rec struct {
 	k mux.Int
-	v sv
+	v interface{}
 }
 
 func (s *store) add(ctx context.Context, d interface{}) (interface{}, error) {
@@ -98,7 +98,7 @@ func (s *store) add(ctx context.Context, d interface{}) (interface{}, error) {
 		return nil, errDup
 	}
 	s.m[r.k] = r.v
-	s.exit(r.k, fmt.Sprintf("add(%d)=%s", r.k, r.v))
+	s.exit(r.k, fmt.Sprintf("add(%d)=%v", r.k, r.v))
 	return r.v, nil
 }
 
@@ -112,8 +112,8 @@ func (s *store) update(ctx context.Context, d interface{}, pre interface{}) (int
 		s.exit(r.k, fmt.Sprintf("update(%d)=notfound", r.k))
 		return nil, errNotFound
 	}
-	if pre != nil && pre.(sv) != s.m[r.k] {
-		s.w.Failf("update of key %d was handed the previous value %q but the store holds %q (stale cache)", r.k, pre, s.m[r.k])
+	if pre != nil && pre != s.m[r.k] {
+		s.w.Failf("update of key %d was handed the previous value %v but the store holds %v (stale cache)", r.k, pre, s.m[r.k])
 	}
 	s.m[r.k] = r.v
 	s.exit(r.k, fmt.Sprintf("update(%d)=%s", r.k, r.v))
@@ -126,8 +126,8 @@ func (s *store) upsert(ctx context.Context, d interface{}, pre interface{}) (int
 		s.exit(r.k, fmt.Sprintf("upsert(%d)=FAIL", r.k))
 		return nil, errInjected
 	}
-	if pre != nil && pre.(sv) != s.m[r.k] {
-		s.w.Failf("upsert of key %d was handed the previous value %q but the store holds %q (stale cache)", r.k, pre, s.m[r.k])
+	if pre != nil && pre != s.m[r.k] {
+		s.w.Failf("upsert of key %d was handed the previous value %v but the store holds %v (stale cache)", r.k, pre, s.m[r.k])
 	}
 	s.m[r.k] = r.v
 	s.exit(r.k, fmt.Sprintf("upsert(%d)=%s", r.k, r.v))
@@ -148,13 +148,14 @@ func (s *store) del(ctx context.Context, d interface{}) error {
 func isNotFound(err error) bool { return err == errNotFound }
 
 type world struct {
-	w        *mc.World
-	g        *mux.WorkerGrp
-	s        *store
-	inflight map[mux.Int]int
-	epoch    map[mux.Int]int // bumped whenever an operation on the key starts or returns
-	nval     int
-	keys     []mux.Int
+	w         *mc.World
+	g         *mux.WorkerGrp
+	s         *store
+	inflight  map[mux.Int]int
+	epoch     map[mux.Int]int // bumped whenever an operation on the key starts or returns
+	nval      int
+	keys      []mux.Int
+	nilValues bool
 }
 
 var opNames = []string{"Get", "Add", "Update", "Delete", "UpdOrAdd", "UpsertThenLoad", "UpsertThenRenew"}
@@ -171,7 +172,10 @@ func (x *world) do(op int, k mux.Int, ctx context.Context) string {
 	w := x.w
 	w.Touch()
 	x.nval++
-	v := sv(fmt.Sprintf("v%d", x.nval))
+	var v interface{} = sv(fmt.Sprintf("v%d", x.nval))
+	if x.nilValues && x.nval%2 == 1 {
+		v = nil // every second value written is the untyped nil
+	}
 	x.inflight[k]++
 	x.epoch[k]++
 	e0 := x.epoch[k]
@@ -248,6 +252,7 @@ type cfg struct {
 	size int
 	keys []mux.Int
 	big  bool // every second value is bigger than the whole LRU
+	nils bool // every second value written is the untyped nil
 }
 
 func newWorld(w *mc.World, c cfg, faults bool) *world {
@@ -258,8 +263,8 @@ func newWorld(w *mc.World, c cfg, faults bool) *world {
 	} else {
 		g = mux.NewWorkGrpWithMapCache(mux.WithSize(c.size), mux.WithDeep(8))
 	}
-	s := &store{w: w, m: map[mux.Int]sv{}, inside: map[mux.Int]int{}, loads: map[mux.Int]int{}, faults: faults}
-	x := &world{w: w, g: g, s: s, inflight: map[mux.Int]int{}, epoch: map[mux.Int]int{}, keys: c.keys}
+	s := &store{w: w, m: map[mux.Int]interface{}{}, inside: map[mux.Int]int{}, loads: map[mux.Int]int{}, faults: faults}
+	x := &world{w: w, g: g, s: s, inflight: map[mux.Int]int{}, epoch: map[mux.Int]int{}, keys: c.keys, nilValues: c.nils}
 	w.Data["x"] = x
 	g.Start()
 	return x
@@ -322,7 +327,7 @@ func concurrent(c cfg, name string, threads [][]step, seed []step, faults bool, 
 					cv, ok := mux.VerifCachePeek(x.g, k)
 					if ok {
 						sv, has := x.s.m[k]
-						if !has || cv != interface{}(sv) {
+						if !has || cv != sv {
 							return fmt.Errorf("no operation on key %d is in flight, the cache holds %v but the store holds %v (present=%v); store calls %v", k, cv, sv, has, x.s.calls)
 						}
 					}
@@ -341,9 +346,9 @@ func ordered(c cfg) *mc.Scenario {
 			x := newWorld(w, c, false)
 			g, s := x.g, x.s
 			x.inflight[k] += 3 // the three queued operations stay in flight until the workers have drained
-			_, _ = g.DoAdd(vctx.Canceled(), s.add, k, rec{k, "A"})
-			_, _ = g.DoUpdate(vctx.Canceled(), s.load, s.update, k, rec{k, "B"})
-			_, _ = g.DoUpsertThenRenewInCache(vctx.Canceled(), s.upsert, k, rec{k, "C"})
+			_, _ = g.DoAdd(vctx.Canceled(), s.add, k, rec{k, sv("A")})
+			_, _ = g.DoUpdate(vctx.Canceled(), s.load, s.update, k, rec{k, sv("B")})
+			_, _ = g.DoUpsertThenRenewInCache(vctx.Canceled(), s.upsert, k, rec{k, sv("C")})
 			w.Go("late", func() { w.Obs("%s", x.do(0, k, vctx.New())) })
 			w.Join()
 			x.finish()
@@ -358,7 +363,7 @@ func ordered(c cfg) *mc.Scenario {
 			if got := fmt.Sprint(writes); got != want {
 				w.Failf("operations on key %d were accepted in the order add, update, upsert but applied to the store as %s", k, got)
 			}
-			if s.m[k] != "C" {
+			if s.m[k] != interface{}(sv("C")) {
 				w.Failf("store ends with %q, want C", s.m[k])
 			}
 		}}
@@ -379,16 +384,62 @@ func sequential(c cfg, depth int, dev [2]int) *mc.Scenario {
 		}}
 }
 
+// optionsScenario: worker-count options of one group do not reach the next one (all ordered pairs of
+// {default, 2, 3} workers x map/LRU facade; the worker count is read off the routing of keys 0..400)
+func optionsScenario() *mc.Scenario {
+	return &mc.Scenario{Name: "constructors/options-do-not-leak-between-groups", PB: [2]int{0, 0}, NoStateCache: true, ProcessState: true, Horizon: 4000000,
+		Main: func(w *mc.World) {
+			mk := func(size int, lru bool) (*mux.WorkerGrp, int) {
+				var opts []mux.Option
+				want := mux.DefaultMuxSize
+				if size > 0 {
+					opts, want = append(opts, mux.WithSize(size)), size
+				}
+				if lru {
+					return mux.NewWorkGrpWithLRU(4, opts...), want
+				}
+				return mux.NewWorkGrpWithMapCache(opts...), want
+			}
+			workers := func(g *mux.WorkerGrp) int {
+				mx := 0
+				for k := 0; k <= 400; k++ {
+					if i := mux.VerifWorkerOf(g, mux.Int(k)); i+1 > mx {
+						mx = i + 1
+					}
+				}
+				return mx
+			}
+			n := 0
+			for _, a := range []int{0, 2, 3} {
+				for _, b := range []int{0, 2, 3} {
+					for _, lru := range []bool{false, true} {
+						ga, wa := mk(a, lru)
+						gb, wb := mk(b, !lru)
+						if got := workers(gb); got != wb {
+							w.Failf("a group configured for %d workers (0 = default %d) built after one with %d routes keys to %d workers", b, mux.DefaultMuxSize, a, got)
+						}
+						if got := workers(ga); got != wa {
+							w.Failf("a group configured for %d workers routes keys to %d workers after another group with %d was built", a, got, b)
+						}
+						n++
+					}
+				}
+			}
+			w.Obs("pairs=%d", n)
+		}}
+}
+
 func scenarios(r *ev.Run) []*mc.Scenario {
 	cfgs := []cfg{
-		{"map/workers=1", 0, 1, []mux.Int{1, 2}, false},
-		{"map/workers=2", 0, 2, []mux.Int{1, 3}, false}, // 1 and 3 share worker 1
-		{"map/workers=2/two-workers", 0, 2, []mux.Int{1, 2}, false},
-		{"lru=1/workers=1", 1, 1, []mux.Int{1, 2}, false},
-		{"lru=2/workers=1", 2, 1, []mux.Int{1, 2}, false},
-		{"lru=2/workers=1/oversized-values", 2, 1, []mux.Int{1, 2}, true},
+		{"map/workers=1", 0, 1, []mux.Int{1, 2}, false, false},
+		{"map/workers=2", 0, 2, []mux.Int{1, 3}, false, false}, // 1 and 3 share worker 1
+		{"map/workers=2/two-workers", 0, 2, []mux.Int{1, 2}, false, false},
+		{"lru=1/workers=1", 1, 1, []mux.Int{1, 2}, false, false},
+		{"lru=2/workers=1", 2, 1, []mux.Int{1, 2}, false, false},
+		{"lru=2/workers=1/oversized-values", 2, 1, []mux.Int{1, 2}, true, false},
+		{"map/workers=1/nil-values", 0, 1, []mux.Int{1, 2}, false, true},
 	}
-	var scs []*mc.Scenario
+	scs := []*mc.Scenario{optionsScenario()}
 	for ci, c := range cfgs {
 		k1, k2 := c.keys[0], c.keys[1]
 		seed := []step{{1, k1}} // key 1 added and cached
